@@ -250,7 +250,7 @@ func (e *Exec) assert(c *Term, msg string) {
 		r, m := e.S.Check(Not(c), true)
 		switch r {
 		case Unsat:
-			if e.X.crossCheck != "" {
+			if e.X.crossCheck != "" && e.X.takeCrossBudget() {
 				for _, k := range strings.Split(e.X.crossCheck, ",") {
 					if rr := e.S.CrossCheck(k, Not(c)); rr != Unsat {
 						e.X.noteUnknown(fmt.Sprintf("solver disagreement on assertion %q: z3 unsat, %s %v", msg, k, rr))
